@@ -5,6 +5,7 @@ import (
 	"go/constant"
 	"go/token"
 	"go/types"
+	"math"
 	"math/big"
 	"strings"
 
@@ -325,7 +326,11 @@ func (env *SEnv) pkgObject(obj types.Object) *SVal {
 			}
 			return &SVal{T: vc.intConst(bi, o.Type()), Go: o.Type()}
 		case constant.Float:
+			// a named floating-point constant denotes the float64 value the program computes with (0.38 is not 19/50)
 			r, _ := new(big.Rat).SetString(o.Val().ExactString())
+			if f, _ := constant.Float64Val(o.Val()); !math.IsInf(f, 0) && !math.IsNaN(f) {
+				r = new(big.Rat).SetFloat64(f)
+			}
 			return &SVal{CR: r}
 		case constant.Bool:
 			if constant.BoolVal(o.Val()) {
@@ -722,6 +727,19 @@ func (env *SEnv) call(e *SExpr) *SVal {
 		avs[i] = a
 		if _, ok := intLitVal(a.T); !ok {
 			allLit = false
+		}
+	}
+	if sf.Opaque && !hasAddr {
+		revealed := false
+		if vc.con != nil {
+			for _, n := range strings.Split(vc.con.Opts["reveal"], ",") {
+				if strings.TrimSpace(n) == sf.Name {
+					revealed = true
+				}
+			}
+		}
+		if !revealed {
+			return env.callUFOpaque(sf, avs)
 		}
 	}
 	if sf.Body == nil || (sf.Recursive && !(allLit && env.depth < 4000)) {
@@ -1189,6 +1207,24 @@ func (env *SEnv) callUF(sf *SpecFunc, avs []*SVal) *SVal {
 		vc.pendingUnfold = append(vc.pendingUnfold, &ufApp{info: info, app: app, st: env.cur, vals: avs, depth: env.unfoldDepth})
 	}
 	return &SVal{T: app, Go: sf.Result}
+}
+
+// callUFOpaque: an application of an opaque spec function outside the contracts that reveal it: an uninterpreted function
+// of the heap components its body reads and of its arguments (no defining equation).
+func (env *SEnv) callUFOpaque(sf *SpecFunc, avs []*SVal) *SVal {
+	vc := env.vc
+	info := env.ufInfo(sf)
+	if info.probing {
+		return &SVal{T: vc.fresh("probe!rec", vc.sortOf(sf.Result)), Go: sf.Result}
+	}
+	var args []*Term
+	for _, k := range info.heapKeys {
+		args = append(args, vc.heapGet(env.cur, k))
+	}
+	for _, a := range avs {
+		args = append(args, a.T)
+	}
+	return &SVal{T: App(smtName(info.name), info.res, args...), Go: sf.Result}
 }
 
 func mentionsBound(t *Term) bool {
